@@ -21,6 +21,8 @@ inductive Run : Stmt → TS → Exit → TS → Prop
   | raise_ (s) : Run raise_ s raised s
   | ret (s) : Run ret s returned s
   | unknown (s e) : Run unknown s e ⟨true, none⟩
+  | call_saved (s e) : e ≠ returned → Run callT s e { s with saved := some s.changed }
+  | call_early (s e) : e ≠ returned → Run callT s e s
   | seq_stop (a b s e s') : Run a s e s' → e ≠ normal → Run (seq a b) s e s'
   | seq_go (a b s s' e s'') : Run a s normal s' → Run b s' e s'' → Run (seq a b) s e s''
   | ite_l (a b s e s') : Run a s e s' → Run (br a b) s e s'
@@ -43,6 +45,8 @@ theorem exec_complete {st : Stmt} {s : TS} {e : Exit} {s' : TS} (h : Run st s e 
   | restore_stale s hv => simp [exec, hv]
   | restore_missing s hv => simp [exec, hv]
   | unknown s e => cases e <;> simp [exec]
+  | call_saved s e he => cases e <;> simp_all [exec]
+  | call_early s e he => cases e <;> simp_all [exec]
   | seq_stop a b s e s' _ hne ih =>
     simp only [exec, List.mem_eraseDups, List.mem_flatMap]
     exact ⟨(e, s'), ih, by simp [hne]⟩
